@@ -290,10 +290,15 @@ class TimeDependentLinearPDE(LinearPDE):
                                  "time_obs as None.")
             
             # Interpolate solution in space and time to the observation
-            # time and space
+            # time and space. grid_obs and time_obs are in the order chosen
+            # by the user (not necessarily ascending), so the spline is
+            # evaluated point-wise on their tensor product: row i belongs to
+            # grid_obs[i], column j to time_obs[j]
+            grid_obs, time_obs = np.meshgrid(self.grid_obs, self._time_obs,
+                                             indexing='ij')
             solution_obs = scipy.interpolate.RectBivariateSpline(
-                self.grid_sol, self.time_steps, solution)(self.grid_obs,
-                                                          self._time_obs)
+                self.grid_sol, self.time_steps, solution)(grid_obs, time_obs,
+                                                          grid=False)
 
         # Apply observation map
         if self.observation_map is not None:
